@@ -102,7 +102,8 @@ Definition lmismatches := lmismatches_from 0.
 Definition open_now : list (string * string * string) :=
   map (fun r => (r_name r, r_method r, r_pattern r)) (open_routes shape_now routes).
 Definition unknown_prefixes_now : list string := map p_prefix (unexempt_prefixes open_findings prefixes).
-Definition known_prefixes_now : list string := map p_prefix (filter (exempt_prefix open_findings) prefixes).
+Definition known_prefixes_now : list string :=
+  map p_prefix (filter (fun p => exempt_prefix open_findings p && negb (prefix_admin p)) prefixes).
 Definition unguarded_now : list (string * string) := map (fun g => (g_method g, g_pattern g)) (unguarded open_findings handler_guards).
 Definition exempt_unguarded_now : list (string * string) :=
   map (fun g => (g_method g, g_pattern g))
